@@ -110,6 +110,34 @@ prop("C16", "TestC16", "exploration",
      "or a must-reject verdict; distinct = hash of the byte stream + kind",
      q, t, required_labels=["kind:layout", "kind:blank", "kind:corrupt", "spec:accept", "spec:reject", "spec:free"])
 
+q, t = tiers(4, 3000, 16, 40000, floor_q=1000, floor_t=10000)
+prop("C01", "TestC01", "exploration",
+     "rapid generates a reference (6..60 nt, thorough 400; occasionally with IUPAC codes) and 1..5 queries of 1..3 (thorough 5) records each. "
+     "Every record is built from a per-query truth row: CIGAR over M,=,X,I,D,N,P with optional H/S/HS clips, lengths 1..6 (rare long ones), placed at any "
+     "POS that fits (biased to POS=1 and to ending at the last base), SEQ consistent by construction, upper or lower case; supplementary records "
+     "overlap or not, agree or (one class) carry conflicting bases; unmapped (0x4) and secondary (0x100, SEQ '*' or wrong bases) records of any "
+     "query name are interleaved. Options: --pad, --start/--end (each alone, both, none), --wrap 1..L+3 or off, threads 1,2,3,8. The whole output "
+     "text is compared with a column-by-column projection model (base > deletion > nothing, two letters => N, flank rule, window, wrap).",
+     "Model written from the statement; records without an aligned base, spans beyond LN, non-contiguous query names and SEQ '*' on primary records are not generated (undefined by the statement).",
+     "property-based testing (rapid) against an independent alignment-projection model",
+     "non-trivial = some CIGAR has I/D/N/S/H/P, or a query has >= 2 records, or a noise record is interleaved; distinct = hash of the case",
+     q, t, required_labels=["op:I", "op:D", "op:N", "op:S", "op:H", "op:P", "op:=", "op:X", "leading-D", "trailing-D", "adjacent-I/D", "overlapping-records",
+                            "disjoint-records", "conflicting-bases", "noise:unmapped", "noise:secondary", "pad", "window", "wrap", "threads>1", "pos=1", "ends-at-L"])
+
+q, t = tiers(4, 2500, 16, 25000, floor_q=1000, floor_t=10000)
+prop("C02", "TestC02", "exploration",
+     "Same alignment generator as C01 without conflicting bases and without two records sharing one insertion slot; insertions anywhere (before the "
+     "first base, after the last, adjacent to D, several per record, in several records of one query, inside another record's match-only coverage). "
+     "Options: --skip-insertions, --omit-reference, --start/--end, --wrap, threads, directory output (files read back; one file per query, '/' in "
+     "names replaced) and -o stdout. Each file must equal the model pair exactly (reference row = reference with '-' exactly at the query's "
+     "insertion columns; query row = aligned and inserted bases in order, '-' for deletions, N uncovered); additionally gofasta's own pair row "
+     "with the reference-gap columns deleted must equal gofasta's own `toMultiAlign --pad` row (cross-command relation on real outputs).",
+     "Overlapping records that contain the same insertion are not generated (no single answer); record order on stdout with threads>1 is left to C12 (compared as a multiset of per-query blocks).",
+     "property-based testing (rapid) against an independent alignment-projection model + metamorphic relation toPairAlign vs toMultiAlign --pad",
+     "non-trivial = a query with >= 1 insertion; distinct = hash of the case; label multi-record+insertion counts the deep class",
+     q, t, required_labels=["query-with-insertion", "multi-record+insertion", "several-insertions", "insertion-before-first-base", "insertion-after-last-base",
+                            "skip-insertions", "omit-reference", "window", "wrap", "stdout", "threads>1"])
+
 NOT_CLAIMED = {}
 
 
